@@ -184,7 +184,7 @@ func cmdCheck(args []string) int {
 	intrinsics := map[string]bool{}
 	var samples []interface{}
 	tot := struct {
-		states, transitions, validated, feasQ, assertQ, assertSat, assertUnsat, assertUnknown, solverErrors, solverUnknown, solverFallbacks, crossChecked, crossDisagree int
+		states, transitions, validated, feasQ, assertQ, assertSat, assertUnsat, assertUnknown, solverErrors, solverUnknown, solverFallbacks, solverHangs, crossChecked, crossDisagree int
 		solverTime                                                                                                                                                       time.Duration
 	}{}
 	writeEvidence := func(status string) {
@@ -214,7 +214,7 @@ func cmdCheck(args []string) int {
 				"queries": map[string]int{
 					"feasibility": tot.feasQ, "assertion": tot.assertQ, "assertion_sat": tot.assertSat,
 					"assertion_unsat": tot.assertUnsat, "assertion_unknown": tot.assertUnknown,
-					"solver_unknown": tot.solverUnknown, "second_solver_queries": tot.solverFallbacks, "unsat_verdicts_cross_checked": tot.crossChecked, "cross_check_disagreements": tot.crossDisagree, "solver_error_lines": tot.solverErrors,
+					"solver_unknown": tot.solverUnknown, "second_solver_queries": tot.solverFallbacks, "solver_restarts_after_no_answer": tot.solverHangs, "unsat_verdicts_cross_checked": tot.crossChecked, "cross_check_disagreements": tot.crossDisagree, "solver_error_lines": tot.solverErrors,
 				},
 				"solver_time_s":  tot.solverTime.Seconds(),
 				"solvers":        []string{"z3 4.8.12 (/usr/bin/z3 -in)"},
@@ -290,6 +290,7 @@ func cmdCheck(args []string) int {
 		tot.crossDisagree += rep.CrossDisagree
 		tot.solverErrors += rep.Solver.Errors
 		tot.solverFallbacks += rep.Solver.Fallbacks
+		tot.solverHangs += rep.Solver.Hangs
 		tot.solverUnknown += rep.Solver.Unknown
 		tot.solverTime += rep.Solver.Time
 		for _, m := range rep.Inconclusive {
